@@ -39,7 +39,7 @@ EncDhcpOpt(o) == IF o.Tag \in {<<0>>, <<255>>} THEN o.Tag ELSE o.Tag \o <<Len(o.
 \* (the Go value of an option is projected as [T |-> "DHCPOption", Tag, Data])
 HasEnd(opts) == \E i \in DOMAIN opts : opts[i].Tag = <<255>>
 EncDhcp(d) == d.Operation \o d.HardwareType \o d.HardwareLen \o d.HardwareOpts \o d.Xid \o d.Secs \o d.Flags \o d.ClientIP \o d.YourIP
-              \o d.ServerIP \o d.GatewayIP \o d.ClientHWAddr \o Zeros(16 - Len(d.ClientHWAddr)) \o d.ServerName \o d.File \o <<99, 130, 83, 99>>
+              \o d.ServerIP \o d.GatewayIP \o d.ClientHWAddr \o Zeros(16 - Len(d.ClientHWAddr)) \o d.ServerName \o Zeros(64 - Len(d.ServerName)) \o d.File \o Zeros(128 - Len(d.File)) \o <<99, 130, 83, 99>>
               \o Flat([i \in DOMAIN d.Options |-> EncDhcpOpt(d.Options[i])]) \o (IF HasEnd(d.Options) THEN <<>> ELSE <<255>>)
 \* LLDP TLV (IEEE 802.1AB): 7-bit type, 9-bit length of the value; chassis / port id values start with a subtype byte
 LldpHdr(type, len) == BE16(type * 512 + len)
